@@ -4,42 +4,6 @@ use std::{vec, vec::Vec};
 use super::*;
 use crate::__verif_support::*;
 
-macro_rules! c04_zeta {
-    ($name:ident, $f:ty) => {
-        vproof! {
-            fn $name() {
-                let s: $f = kani::any();
-                let r = Zeta::<$f>::new(s);
-                let conds = [s <= 1.0 || s != s];
-                let res = match &r { Ok(_) => None, Err(Error::STooSmall) => Some(0) };
-                c04_judge(res, conds);
-                if let Ok(d) = r {
-                    vassert!(d.s_minus_1 == s - 1.0, "Zeta::new: s_minus_1 != s - 1");
-                    vassert!(d.b >= 1.0, "Zeta::new: b = 2^(s-1) below 1 or NaN");
-                }
-                kani::cover!(res.is_none(), "Ok reachable");
-                kani::cover!(res == Some(0), "STooSmall reachable");
-            }
-        }
-    };
-}
-//@ id: c04_zeta_f64
-//@ prop: C04
-//@ tier: quick
-//@ cap: 300
-//@ funcs: Zeta::<f64>::new
-//@ bounds: every f64 bit pattern
-//@ assumes: libm::pow by contract
-c04_zeta!(c04_zeta_f64, f64);
-//@ id: c04_zeta_f32
-//@ prop: C04
-//@ tier: quick
-//@ cap: 300
-//@ funcs: Zeta::<f32>::new
-//@ bounds: every f32 bit pattern
-//@ assumes: libm::powf by contract
-c04_zeta!(c04_zeta_f32, f32);
-
 // ------------------------------------------------------------------------------------------
 // C03: Zeta returns an integer >= 1 or the documented +inf
 // ------------------------------------------------------------------------------------------
@@ -48,10 +12,10 @@ macro_rules! c03_zeta {
         vproof! {
             #[kani::unwind(3)]
             fn $name() {
+                let mut rng = SymRng::new(2); // all symbolic inputs are drawn first (replay alignment)
                 let s: $f = kani::any();
                 let d = match Zeta::<$f>::new(s) { Ok(d) => d, Err(_) => return };
                 kani::assume(s <= 1001.0);
-                let mut rng = SymRng::new(2);
                 let x: $f = d.sample(&mut rng);
                 vassert!(x == x, "Zeta sample is NaN");
                 vassert!(x >= 1.0, "Zeta sample below 1");
@@ -78,3 +42,47 @@ c03_zeta!(c03_zeta_f64, f64);
 //@ bounds: s in (1, 1001]; first trial (<= 2 words), all 2^24 uniform values
 //@ assumes: libm::powf by contract
 c03_zeta!(c03_zeta_f32, f32);
+
+// ------------------------------------------------------------------------------------------
+// C05: no parameter regime in E rejects independently of the stream.  Witness stream: the first draw is the
+// largest OpenClosed01 value (u = 1 => proposal x = 1), any non-zero second draw: Devroye's test
+// v x (t-1) b <= t (b-1) then holds for every s (it reads v <= 1), including b = 2^(s-1) = inf.
+// A strict RNG turns "asks for a third word" into an assertion failure.
+// ------------------------------------------------------------------------------------------
+macro_rules! c05_zeta {
+    ($name:ident, $f:ty, $lo:expr, $hi:expr, $vnz:expr) => {
+        vproof! {
+            #[kani::unwind(3)]
+            fn $name() {
+                let mut rng = SymRng::new(2); // all symbolic inputs are drawn first (replay alignment)
+                let s: $f = kani::any();
+                kani::assume(s >= $lo && s <= $hi);
+                let d = match Zeta::<$f>::new(s) { Ok(d) => d, Err(_) => return };
+                rng.strict = true;
+                rng.words[0] = u64::MAX;
+                kani::assume($vnz(rng.words[1]));
+                let x: $f = d.sample(&mut rng);
+                vassert!(x == 1.0 && rng.pos == 2, "Zeta: proposal x = 1 must be accepted");
+                kani::cover!(true, "accepted");
+            }
+        }
+    };
+}
+fn vnz32(w: u64) -> bool { ((w as u32) >> 8) != 0 }
+fn vnz64(w: u64) -> bool { (w >> 11) != 0 }
+//@ id: c05_zeta_accept_f32_inf
+//@ prop: C05
+//@ tier: quick
+//@ cap: 900
+//@ funcs: Zeta::<f32>::new; Zeta::<f32>::sample (Devroye acceptance test with b = 2^(s-1) = +inf)
+//@ bounds: s in [129, 1001] (b overflows f32); witness stream u = 1, any v != 0; must return within 2 words
+//@ assumes: libm::powf by contract (functional; 2^y = inf for y >= 128; pow(1, y) = 1)
+c05_zeta!(c05_zeta_accept_f32_inf, f32, 129.0, 1001.0, vnz32);
+//@ id: c05_zeta_accept_f32
+//@ prop: C05
+//@ tier: thorough
+//@ cap: 1500
+//@ funcs: Zeta::<f32>::new; Zeta::<f32>::sample
+//@ bounds: s in [1.25, 129); witness stream u = 1, any v != 0; must return within 2 words
+//@ assumes: libm::powf by contract (functional on repeated arguments)
+c05_zeta!(c05_zeta_accept_f32, f32, 1.25, 129.0, vnz32);
